@@ -153,15 +153,18 @@ def extract_codec_b():
     dns = _non_test(os.path.join(P, "dns", "dns_parsing.rs"))
     dhcp = _non_test(os.path.join(P, "dhcp", "dhcp_parsing.rs"))
     # --- delimiters: one literal, used consistently by decoder and encoder
-    d_dec = re.findall(r"while current != (b'(?:\\.|[^'])+')", _fn_body(dns, r"pub fn from_bytes\b[^{]*\{", "dns from_bytes"))
-    d_enc = re.findall(r"Vec::from\(\[(b'(?:\\.|[^'])+')\]\)", dns)
-    if len(d_dec) != 2 or len(d_enc) != 2 or len(set(d_dec + d_enc)) != 1:
-        raise ExtractError(f"dns_parsing.rs: name delimiter not a single literal used by from_bytes (x2) and build (x2): {d_dec} {d_enc}")
+    BYTE = r"b'(?:\\.|[^'])+'"
+    body = _fn_body(dns, r"pub fn from_bytes\b[^{]*\{", "dns from_bytes")
+    d_dec = re.findall(BYTE, body)
+    d_enc = re.findall(BYTE, dns.replace(body, ""))
+    if len(d_dec) < 2 or len(d_enc) < 2 or len(set(d_dec + d_enc)) != 1:
+        raise ExtractError(f"dns_parsing.rs: name delimiter is not one byte literal used by from_bytes and by the builders: {d_dec} {d_enc}")
     dns_delim = _byte_literal(d_dec[0])
-    t_dec = re.findall(r"while current != (b'(?:\\.|[^'])+')", _fn_body(dhcp, r"pub fn from_bytes\b[^{]*\{", "dhcp from_bytes"))
-    t_enc = re.findall(r"vec_message\.push\((b'(?:\\.|[^'])+')\)", dhcp)
-    if len(t_dec) != 2 or len(t_enc) != 2 or len(set(t_dec + t_enc)) != 1:
-        raise ExtractError(f"dhcp_parsing.rs: string terminator not a single literal used by from_bytes (x2) and to_message (x2): {t_dec} {t_enc}")
+    body = _fn_body(dhcp, r"pub fn from_bytes\b[^{]*\{", "dhcp from_bytes")
+    t_dec = re.findall(BYTE, body)
+    t_enc = re.findall(BYTE, dhcp.replace(body, ""))
+    if len(t_dec) < 2 or len(t_enc) < 2 or len(set(t_dec + t_enc)) != 1:
+        raise ExtractError(f"dhcp_parsing.rs: string terminator is not one byte literal used by from_bytes and by to_message: {t_dec} {t_enc}")
     dhcp_term = _byte_literal(t_dec[0])
     # --- enum codes and the decoders' matches on them
     mt = _enum_codes(dhcp, "MessageType")
@@ -184,6 +187,19 @@ def extract_codec_b():
         body = _fn_body(_non_test(path), r"fn demux\b[^{]*\{", what)
         if re.search(r"from_bytes\([^;]*?\)\s*\.(unwrap|expect)\(", body, flags=re.S):
             raise ExtractError(f"{what} unwraps the result of from_bytes: a panic site the model does not have")
+    # the DNS responder / resolver propagate decode failures (F-C14-4)
+    srv = _non_test(os.path.join(P, "dns", "dns_server.rs"))
+    cli = _non_test(os.path.join(P, "dns", "dns_client.rs"))
+    for src, what, pats in (
+            (srv, "DnsServer", (r"from_bytes\([^;]*?\)\s*\.(unwrap|expect)\(", r"query_name\(\)\s*\.(unwrap|expect)\(",
+                               r"respond_to_query\([^;]*?\)\s*\.await\s*\.(unwrap|expect)\(")),
+            (cli, "DnsClient::get_host_by_name", (r"from_bytes\([^;]*?\)\s*\.(unwrap|expect)\(", r"from_utf8\([^;]*?\)\s*\.(unwrap|expect)\(",
+                                                 r"get_mapping\(&name\)\s*\.(unwrap|expect)\("))):
+        for pat in pats:
+            if re.search(pat, src, flags=re.S):
+                raise ExtractError(f"{what} unwraps a decode result (`{pat}`): a panic site the model (Dns.serverRespond / Dns.clientHandle) does not have")
+    if re.search(r"rdata\[\d\]", cli) and not re.search(r"rdata\.len\(\)\s*<\s*4", cli):
+        raise ExtractError("DnsClient::get_host_by_name indexes rdata[0..4] without the length check the model has")
     lines = ["-- GENERATED from /repo sources (arp_parsing.rs, dns_parsing.rs, dhcp_parsing.rs) by tools/extract.py on every check; do not edit",
              "namespace Elvis.Gen.CodecB",
              f"/-- the name delimiter literal of dns_parsing.rs (from_bytes x2, build x2) -/\ndef dnsDelim : UInt8 := {dns_delim}",
